@@ -285,7 +285,7 @@ def _install_monitoring():
     _mon_state['installed'] = True
 
 
-def _run_inproc(text, optimize, timeout, want_history, filename):
+def _run_inproc(text, optimize, timeout, want_history, filename, perturb=0):
     """execute in this (small, long-lived) helper process: fork per program does not scale in this sandbox"""
     result = {'outcome': 'ok', 'stdout': '', 'namespace': {}, 'history': []}
     try:
@@ -294,6 +294,11 @@ def _run_inproc(text, optimize, timeout, want_history, filename):
         result['outcome'] = 'compile-error:' + type(e).__name__
         return result
     ns = {'__name__': '__vf_prog__', '__builtins__': __builtins__}
+    # shift heap addresses (objects, functions, classes, small containers): exposes programs whose output depends on id()/hash order
+    junk = []
+    if perturb:
+        junk = [object() for _ in range(perturb % 1009)] + [(lambda: None) for _ in range(perturb % 53)] + [type('J', (), {}) for _ in range(perturb % 11)] + \
+               [[i] for i in range(perturb % 211)] + [{i: i} for i in range(perturb % 97)]
     out = io.StringIO()
     history = []
     if want_history:
@@ -345,6 +350,7 @@ def _run_inproc(text, optimize, timeout, want_history, filename):
     result['stdout'] = normalise_stdout(out.getvalue()[:200000])
     result['namespace'] = nsrep
     result['history'] = history
+    del junk
     return result
 
 
@@ -363,7 +369,7 @@ def serve():
             res = _local_observe(req['text'], req.get('optimize', 0), req.get('timeout', 8.0), req.get('want_history', True), req.get('filename', '<vf-prog>'), req.get('perturb', 0))
         else:
             try:
-                res = _run_inproc(req['text'], req.get('optimize', 0), req.get('timeout', 8.0), req.get('want_history', True), req.get('filename', '<vf-prog>'))
+                res = _run_inproc(req['text'], req.get('optimize', 0), req.get('timeout', 8.0), req.get('want_history', True), req.get('filename', '<vf-prog>'), req.get('perturb', 0))
             except _Timeout:
                 res = {'outcome': 'timeout', 'stdout': '', 'namespace': {}, 'history': []}
         served += 1
